@@ -32,6 +32,12 @@ pub struct GenCfg {
     pub formats_have_path: bool,
     /// rich formats (many fields) or minimal ones
     pub rich_formats: bool,
+    /// number of constructs that parse but that `compile` refuses (inserted at random places, so
+    /// that compilation fails part-way through, after earlier leaves have had their effects)
+    pub unsupported: usize,
+    /// draw some strings (patterns, pool and xattr names, format literals) from a vocabulary that
+    /// looks like template placeholders or like device paths
+    pub placeholder_strings: bool,
     /// out of 4: how many tests are drawn from the "passes for most files" vocabulary (C16 wants
     /// records to be emitted; 0 = fully discriminating tests)
     pub likely_true: u64,
@@ -88,6 +94,21 @@ fn cmp_prefix(rng: &mut Rng) -> &'static str {
     *rng.pick(&["", "", "+", "-"])
 }
 
+/// Strings that a templating step might mistake for its own placeholder, and typical device paths.
+pub const PLACEHOLDERS: [&str; 22] = [
+    "{mdt}", "{}", "{0}", "{path}", "{device}", "{mdt_path}", "%s", "%MDT%", "$mdt", "${mdt}", "@mdt@", "<mdt>", "__MDT__",
+    "{{mdt}}", "{mdt", "mdt}", "MDT", "/dev/sim0", "/", "/dev/mapper/mdt0", "{dev}", "#mdt#",
+];
+
+fn unsupported_leaf(rng: &mut Rng) -> String {
+    rng.pick(&[
+        "-user bob", "-group staff", "-regex x.*", "-iregex x", "-lname x", "-ilname x", "-samefile f", "-anewer f",
+        "-cnewer f", "-mnewer f", "-fstype ext4", "-nouser", "-nogroup", "-ls", "-fls f.out", "-prune",
+        "-printf \"%d\\n\"", "-printf '%M %p\\n'", "-fprintf o.txt '%l'",
+    ])
+    .to_string()
+}
+
 fn likely_true_test(rng: &mut Rng) -> String {
     // simulated files have times within 200 days before the compile clock, sizes >= 1, uids < 70000
     rng.pick(&[
@@ -111,7 +132,13 @@ fn time_test(rng: &mut Rng) -> String {
 
 fn matcher_test(rng: &mut Rng, cfg: &GenCfg) -> String {
     let which = *rng.pick(&["-name", "-name", "-iname", "-path", "-ipath"]);
-    let p = pattern(rng.usize_below(cfg.pattern_pool.max(1)));
+    let mut p = pattern(rng.usize_below(cfg.pattern_pool.max(1)));
+    if cfg.placeholder_strings && rng.chance(1, 3) {
+        p = rng.pick(&PLACEHOLDERS).to_string();
+        if rng.chance(1, 3) {
+            p = format!("a{p}*");
+        }
+    }
     match rng.below(6) {
         0 => format!("{which} '{p}'"),
         1 => format!("{which} \"{p}\""),
@@ -219,6 +246,13 @@ pub fn format_string(rng: &mut Rng, cfg: &GenCfg, newline: bool) -> String {
             _ => {}
         }
         s.push_str(*rng.pick(&LITERALS));
+        if cfg.placeholder_strings && rng.chance(1, 4) {
+            // a literal that looks like a placeholder ('%' and '~' would be directives: skip those)
+            let ph = *rng.pick(&PLACEHOLDERS);
+            if !ph.contains('%') && !ph.contains('~') {
+                s.push_str(ph);
+            }
+        }
     }
     if s.is_empty() {
         s.push_str("x");
@@ -321,6 +355,23 @@ pub fn expression(rng: &mut Rng, cfg: &GenCfg) -> String {
         let text = action_text(rng, cfg, *kind);
         let at = rng.usize_below(leaves.len() + 1);
         leaves.insert(at, Node::Leaf(text, true));
+    }
+    if cfg.placeholder_strings {
+        for _ in 0..rng.range(0, 2) {
+            let ph = *rng.pick(&PLACEHOLDERS);
+            let t = match rng.below(4) {
+                0 => format!("-pool {ph}"),
+                1 => format!("-xattr {ph}"),
+                2 => format!("-xattr-match user.tag {ph}"),
+                _ => format!("-path '*{ph}*'"),
+            };
+            let at = rng.usize_below(leaves.len() + 1);
+            leaves.insert(at, Node::Leaf(t, false));
+        }
+    }
+    for _ in 0..cfg.unsupported {
+        let at = rng.usize_below(leaves.len() + 1);
+        leaves.insert(at, Node::Leaf(unsupported_leaf(rng), true));
     }
     if cfg.misplaced_option && !leaves.is_empty() {
         let at = rng.usize_below(leaves.len() + 1);
